@@ -351,9 +351,10 @@ class BalanceComp(ImplicitComponent):
                    'use_mult': use_mult,
                    'normalize': normalize}
 
-        lhs_kwargs = lhs_kwargs or {}
-        rhs_kwargs = rhs_kwargs or {}
-        mult_kwargs = mult_kwargs or {}
+        # copy the dictionaries so that those of the caller are not modified
+        lhs_kwargs = dict(lhs_kwargs or {})
+        rhs_kwargs = dict(rhs_kwargs or {})
+        mult_kwargs = dict(mult_kwargs or {})
         output_kwargs = kwargs
 
         # Put the legacy arguments in the kwarg dictionaries
